@@ -474,6 +474,10 @@ def standard_streams(ctx, n_seed_cfgs=1, n_mut=200, n_soup=300, n_bytes=100, n_g
         cases.append(ctx.case("childline", gen.child_line_program(rng), gen.random_cfg(rng)))
     for text, tag in placement_sample(ctx):
         cases.append(ctx.case("placement", text, gen.random_cfg(rng), meta={"tag": tag}))
+    for t in gen.RARE_DECLS:
+        for _ in range(3):
+            t2 = gen.relayout(t, rng)
+            cases.append(ctx.case("decls", t2 if t2 is not None and rng.random() < 0.6 else t, gen.random_cfg(rng)))
     for _ in range(n_gram * 3):
         d = gen.directive_text(rng)
         cases.append(ctx.case("directive", rng.choice(["%s\n", "begin\n  %s\n  Foo;\nend.\n", "Foo(A, %s B);\n", "%s %s\n" % ("%s", gen.directive_text(rng).replace("%", "%%"))]) % d, gen.random_cfg(rng)))
@@ -550,6 +554,8 @@ def wellformed_texts(ctx, n_gram):
         d = gen.directive_text(ctx.rng)
         if d.endswith(("}", "*)")) and "\n" not in d:
             out.append(("begin\n  %s\n  Foo;\nend.\n" % d, "directive", 120))
+    for t in gen.RARE_DECLS:
+        out.append((t, "decls", ctx.rng.choice([30, 60, 120])))
     return out
 
 
